@@ -13,6 +13,7 @@ OBLIGATIONS = [
     "C38/P_fornberg_exact.v",
     "C38/P_fornberg_invariant.v",
     "C38/P_fornberg_closed_form.v",
+    "C38/P_fornberg_unique.v",
     "C38/P_fdiff_in_bounds.v",
     "C38/P_partition_of_unity.v",
     "C38/P_refuted.v",
